@@ -51,6 +51,8 @@ def run(prog: Program, rep: Report, tier: str) -> None:
     sign_summary_premise(prog, rep)
     rep.rule("R3.1", "on every path the first frame is the login frame, it is written exactly once, and it precedes every command frame; every write is followed by a read before the next write", 12)
     rep.rule("R3.2", "session and timestamp of every command frame come from *this invocation's* login: session = bytes 8..12 of the reply read right after the login write, timestamp = the clock value sent in that login frame; the clock helper is not memoised", 14)
+    rep.rule("R3.7", "the configured identity is what the frames carry: _device_id / _device_key / _port / _ip_address are stored once, in SwitcherApi.__init__, from the same-named parameter unchanged "
+                     "(no normalisation, re-formatting or later re-assignment; shares its sweep with C02 R2.5)", 4)
     rep.claims_instance_state = "R3.3"       # a class-level container mutated through instances is state shared by all clients
     rep.rule("R3.3", "no shared or lingering state: the only attribute stores of the API classes are the 7 instance attributes in __init__/connect/disconnect; no global/nonlocal, no cache decorator, no store on a module/class/other object, no mutated mutable default or module-level container in the api/tools modules", 10)
     rep.rule("R3.4", "login flavour: type-1 operations send the login-key frame, type-2 operations the device-id frame; _login selects the type-2 frame exactly for the DeviceType members with protocol_type == 2", 12 + 10)
@@ -172,6 +174,8 @@ def run(prog: Program, rep: Report, tier: str) -> None:
     rep.analysed["paths"] = npaths
     login_sibling_rule(prog, rep, spec)
     memo_rule(prog, rep)
+    from .c02 import config_sweep
+    config_sweep(prog, rep, "R3.7")
     state_sweep(prog, rep)
 
 
